@@ -41,7 +41,13 @@ LEVEL_NOTE = (
     "only tolerance in the whole framework (1e-9 relative) because division "
     "by max|x| is inexact; positive integer mantissas so that no "
     "intermediate is exactly zero (documented domain of check_zero=False); "
-    "a second family with exactly-zero slices is run with check_zero=True"
+    "a second family with exactly-zero slices is run with check_zero=True "
+    "(also under all-(-100), all-(+100), all-(-30) scales, slice by slice "
+    "and gathered); a third family uses whole-tensor signs x structural "
+    "zeros (one entry zeroed, diagonal-only tensors) and mixed signs, so "
+    "that intermediates are non-positive and contain exact zeros without "
+    "being identically zero; cases whose exact result is identically zero "
+    "are outside the property and skipped"
 )
 RULE = (
     "networks: selected 2..4-tensor networks (chain, hyper, batch, outer, "
@@ -49,7 +55,10 @@ RULE = (
     "sliced sets: all subsets of <=2 indices; scales: full product; "
     "distinct_nontrivial = distinct (network, tree, sliced set, scales) "
     "whose plain float64 contraction would over/underflow (|sum scales| or a "
-    "partial product beyond 1e+-308) or with >=1 sliced index"
+    "partial product beyond 1e+-308) or with >=1 sliced index, plus the "
+    "distinct (network, tree, sliced set, scales, zero mask, sign vector) "
+    "cases of the signed/sparse family (sign vectors: all 2^n for n<=3, "
+    "<=1 deviation from all-plus / all-minus for n=4 in the quick tier)"
 )
 ASSUMPTIONS = ["numpy float64 backend"]
 
@@ -281,9 +290,133 @@ def work(unit):
                                    "sizes": sd, "tree": nested,
                                    "sliced": (ix,), "zeroed": True,
                                    "seed": seed}, bad[:3])
+                # the same zero slice under extreme decimal scales: the other
+                # slices' exponents are far below / above that of the zero one
+                for sc in (-100, 100, -30):
+                    scales = (sc,) * n
+                    tree = nets.build_tree(inputs, output, sd, nested)
+                    tree.remove_ind_(ix)
+                    res.evals += 1
+                    res.key((inputs, output, nested, "zero-slice", scales))
+                    arrays = [b.astype("float64") * 10.0 ** sc for b in zb]
+                    bad = []
+                    try:
+                        m, e = tree.contract(arrays, strip_exponent=True,
+                                             check_zero=True)
+                        check_pair(m, e, wz, sc * n,
+                                   "zero-slice-scaled[check_zero=True]", bad)
+                        parts = [tree.contract_slice(
+                            arrays, k, strip_exponent=True, check_zero=True)
+                            for k in range(tree.nslices)]
+                        m, e = tree.gather_slices(iter(parts))
+                        check_pair(m, e, wz, sc * n,
+                                   "zero-slice-scaled:gather_slices", bad)
+                    except Exception as ex:
+                        bad.append(("zero-slice-scaled:raises", repr(ex)))
+                    if bad:
+                        res.violation("strip-exponent:zero-slice-scaled",
+                                      {"inputs": inputs, "output": output,
+                                       "sizes": sd, "tree": nested,
+                                       "sliced": (ix,), "zeroed": True,
+                                       "scales": scales, "seed": seed},
+                                      bad[:3])
+    # ---- signed and sparse data: whole-tensor signs x structural zeros, so
+    # that intermediates are non-positive and/or contain exact zeros without
+    # being identically zero (results that are identically zero are outside
+    # the property and skipped)
+    if n >= 2:
+        signed_sparse(res, inputs, output, sd, base, inds, tier, seed)
     res.sample({"inputs": inputs, "output": output, "scale_points":
                 len(scales_list), "sliced_sets": len(sliced_sets)}, cap=2)
     return res
+
+
+def sign_vectors(n, tier):
+    if tier != "quick" or n <= 3:
+        return list(itertools.product((1, -1), repeat=n))
+    vs = [(1,) * n, (-1,) * n]
+    for j in range(n):
+        vs.append(tuple(-1 if k == j else 1 for k in range(n)))
+        vs.append(tuple(1 if k == j else -1 for k in range(n)))
+    return vs
+
+
+def zero_masks(inputs, base):
+    """none; one tensor with its first entry zeroed; one tensor keeping only
+    its 'diagonal' entries (all indices equal); every tensor diagonal"""
+    n = len(inputs)
+
+    def diag(b):
+        if b.ndim < 2:
+            return b
+        out = np.zeros_like(b)
+        for j in range(min(b.shape)):
+            out[(j,) * b.ndim] = b[(j,) * b.ndim]
+        return out
+
+    def first(b):
+        if b.ndim == 0:
+            return b
+        out = b.copy()
+        out[(0,) * b.ndim] = 0
+        return out
+
+    yield "none", list(base)
+    for j in range(n):
+        if base[j].ndim:
+            yield f"first[{j}]", [first(b) if k == j else b
+                                  for k, b in enumerate(base)]
+        if base[j].ndim >= 2:
+            yield f"diag[{j}]", [diag(b) if k == j else b
+                                 for k, b in enumerate(base)]
+    if any(b.ndim >= 2 for b in base):
+        yield "diag[all]", [diag(b) for b in base]
+
+
+def signed_sparse(res, inputs, output, sd, base, inds, tier, seed):
+    n = len(inputs)
+    trees = list(U.all_trees(range(n)))
+    scale_pts = [(0,) * n, (-100,) * n, (100,) * n,
+                 tuple((-100, 100)[k % 2] for k in range(n))]
+    mixed = [np.where((np.arange(b.size).reshape(b.shape) + j) % 2 == 0, b,
+                      -b) for j, b in enumerate(base)]
+    variants = []
+    for mname, marrs in zero_masks(inputs, base):
+        for sv in sign_vectors(n, tier):
+            variants.append((mname, sv, [s * a for s, a in zip(sv, marrs)]))
+    variants.append(("none", "mixed-within-tensors", mixed))
+    for mname, sv, ints in variants:
+        want = exact_reference(inputs, output, sd, ints)
+        if not np.any(np.asarray(want, dtype=object) != 0):
+            continue
+        for nested in trees:
+            for sl in [()] + [(ix,) for ix in inds[:2]]:
+                tree = nets.build_tree(inputs, output, sd, nested)
+                for ix in sl:
+                    tree.remove_ind_(ix)
+                for scales in scale_pts:
+                    arrays = [a.astype("float64") * 10.0 ** s
+                              for a, s in zip(ints, scales)]
+                    bad = []
+                    for cz in ((True,) if sl else (False, True)):
+                        res.evals += 1
+                        try:
+                            m, e = tree.contract(arrays, strip_exponent=True,
+                                                 check_zero=cz)
+                            check_pair(m, e, want, sum(scales),
+                                       f"signed-sparse[check_zero={cz}]", bad)
+                        except Exception as ex:
+                            bad.append((f"signed-sparse[check_zero={cz}]:"
+                                        "raises", repr(ex)))
+                    res.key((inputs, output, nested, sl, scales, mname,
+                             sv))
+                    if bad:
+                        res.violation(
+                            "strip-exponent:" + str(bad[0][0]).split("[")[0],
+                            {"inputs": inputs, "output": output, "sizes": sd,
+                             "tree": nested, "sliced": sl, "scales": scales,
+                             "mask": mname, "signs": sv, "zeroed": True,
+                             "seed": seed}, bad[:3])
 
 
 def replay(case):
